@@ -10,6 +10,7 @@ require (
 	github.com/influxdata/influxql v1.4.1
 	go.uber.org/zap v1.27.0
 	golang.org/x/tools v0.41.0
+	google.golang.org/protobuf v1.36.10
 )
 
 require (
@@ -93,7 +94,6 @@ require (
 	golang.org/x/text v0.34.0 // indirect
 	golang.org/x/time v0.11.0 // indirect
 	golang.org/x/xerrors v0.0.0-20240903120638-7835f813f4da // indirect
-	google.golang.org/protobuf v1.36.10 // indirect
 	gopkg.in/ini.v1 v1.51.0 // indirect
 	gopkg.in/yaml.v2 v2.4.0 // indirect
 	gopkg.in/yaml.v3 v3.0.1 // indirect
